@@ -395,6 +395,9 @@ func (g *Gen) valid(r *Req, name string) {
 		r.Expect = one(m + " " + q(k))
 	case "RENAME", "RENAMENX":
 		nk := g.key2("n")
+		if g.d(6, "samename") == 5 {
+			nk = k // renaming a key to itself is a request like any other
+		}
 		a = append(a, k, nk)
 		r.Expect = one(fmt.Sprintf("Rename %s %s NX=%t", q(k), q(nk), name == "RENAMENX"))
 	case "SCAN":
